@@ -1,0 +1,17 @@
+//go:build verif
+
+package packet
+
+// Verification hooks (compiled only with -tags verif; no behaviour change): complete and transmit a caller
+// supplied ICMP message through the code the exported send functions share, so that the checksum completion
+// can be exercised with message lengths and contents the exported functions never produce.
+
+// VerifICMP6SendPacket hands an ICMPv6 message (checksum field zero) to icmp6SendPacket.
+func (h *Session) VerifICMP6SendPacket(srcAddr Addr, dstAddr Addr, b []byte) error {
+	return h.icmp6SendPacket(srcAddr, dstAddr, b)
+}
+
+// VerifICMP4SendPacket hands an ICMPv4 message (checksum field zero) to icmp4SendPacket.
+func (h *Session) VerifICMP4SendPacket(srcAddr Addr, dstAddr Addr, b []byte) error {
+	return h.icmp4SendPacket(srcAddr, dstAddr, ICMP(b))
+}
